@@ -7,7 +7,7 @@ ASSUMPTIONS = ['end-to-end health (16 positions x oracle bytes) is decided compo
 
 def tasks(tier):
     from specs.flows import flow_task
-    return [(f'flow:{n}', flow_task(n, ('C04',))) for n in ('borrow', 'withdraw', 'liquidate')]
+    return [(f'flow:{n}', flow_task(n, ('C04',))) for n in ('borrow', 'withdraw', 'liquidate', 'kamino_withdraw', 'solend_withdraw')]
 
 
 # ---------------------------------------------------------------- C04.c/d/e/h kernels
@@ -33,7 +33,7 @@ def t_health_decision(world):
             ob.prove(eng, r, [okc], z3.And(cd == 0, a_ >= l_), 'Ok => assets >= liabilities')
             ob.prove(eng, r, [okc], zint(comp[0][2][1].disc) == zint(args[1].disc), 'components computed for the requested requirement type')
             if tiers: ob.prove(eng, r, [okc], zint(tiers[0][3].disc) == 0, 'Ok => risk-tier check passed')
-            else: ob.fail('accepting path without the risk-tier check')
+            else: ob.structural('accepting path without the risk-tier check', 'no-tier-check')
         if not z3.is_false(errc):
             td = zint(tiers[0][3].disc) if tiers else z3.IntVal(0)
             ob.prove(eng, r, [errc, cd == 0, a_ >= l_], td == 1, 'with non-negative health the only rejection is the risk-tier rule (never "insufficient health")')
